@@ -211,3 +211,25 @@ register('pi', _pi, '3.14159<pi<3.1416')
 register('U', _U, 'random stream element U[k] in [0,1]')
 register('sum', _sum, 'sum(a,0)=0; sum(a,n)=sum(a,n-1)+a[n-1]')
 register('cos', _cos, '-1<=cos<=1')
+
+
+def _band(t, ctx):
+    a, b = t.args[1], t.args[2]
+    out = []
+    if b.is_const() and b.value() >= 0:
+        out.append(tm.and_(tm.ge(t, I0), tm.le(t, b)))
+    if a.is_const() and a.value() >= 0:
+        out.append(tm.and_(tm.ge(t, I0), tm.le(t, a)))
+    return out
+
+
+register('band', _band, '0 <= (a & b) <= b for a non-negative constant mask b')
+
+
+def _bitnonneg(t, ctx):
+    a, b = t.args[1], t.args[2]
+    return [tm.implies(tm.and_(tm.ge(a, I0), tm.ge(b, I0)), tm.ge(t, I0))]
+
+
+for _nm in ('bor', 'bxor', 'shl', 'shr'):
+    register(_nm, _bitnonneg, 'bit operation on non-negative integers is non-negative')
